@@ -3,6 +3,7 @@
 //                                          costs 0..MAXK, total demand <= total capacity (the domain of small_pbs in Ssp.v)
 //   transp gen rand SEED COUNT             random integer-cost problems (classes below)
 //   transp gen big SEED COUNT              many sources (100..1500), 2..16 sinks
+//   transp gen huge SEED COUNT             quantities 2^24..2^40, shares at and around 2^31 / 2^32 (designed splits + random), costs <= 1000
 //   transp gen flt SEED COUNT              float-cost problems (geometric distances / dyadic), as DensityLegalizer::reoptimize builds them
 //   transp run < cases
 // case lines:
@@ -112,6 +113,81 @@ static void gen_rand(SplitMix &g, ll count, bool big) {
   }
 }
 
+// large quantities: demands / capacities from 2^24 to 2^40, shares at and around 2^31 and 2^32 (DemandType is long long: nothing
+// in C13 restricts the quantities to int).  Costs stay <= 1000 and sources <= 24, so that every total cost is < 2^62 (the
+// OCaml driver prints native ints) and max demand / min capacity stays <= 250 (run time of solver and model).
+static ll huge_share(SplitMix &g) {
+  static const ll pts[] = {1LL << 31, (1LL << 31) - 1, (1LL << 31) + 1, 1LL << 32, (1LL << 32) - 1, (1LL << 32) + 1, (1LL << 32) + 10,
+                           (1LL << 33) + 5, 3LL << 31, (1LL << 31) + (1LL << 20), (3LL << 32) + 5, (1LL << 34) - 1};
+  if (g.coin(60)) return pts[g.uni(0, 11)];
+  ll hi = g.uni(1, 64);   // 2^31 .. 2^37, low 32 bits: zero / all ones / bit 31 only / random
+  int lowk = (int)g.uni(0, 3);
+  ll low = lowk == 0 ? 0 : lowk == 1 ? 0xffffffffLL : lowk == 2 ? 0x80000000LL : g.uni(0, 0xffffffffLL);
+  return std::max<ll>(1LL << 31, (hi << 31) + low - (1LL << 31));
+}
+static void gen_huge(SplitMix &g, ll count) {
+  for (ll it = 0; it < count; ++it) {
+    int nsnk, nsrc; std::vector<ll> dems, caps; std::vector<std::vector<ll>> costs; int incr = 0;
+    if (g.coin(45)) {
+      // ring of designed splits: source i sends its main share A_i to sink i (cost 0) and a remainder r_i to sink i+1 (cost 1),
+      // everything else is expensive; capacities exactly A_j + r_(j-1).  e.g. 2^32+30 split 2^32+10 / 20; a share of exactly 2^31
+      nsnk = (int)g.uni(2, 3); int extra = g.coin(60) ? 0 : 1; nsrc = nsnk + extra;   // tiny: see the remark on run time below
+      std::vector<ll> A(nsnk), r(nsnk);
+      for (int i = 0; i < nsnk; ++i) {
+        A[i] = huge_share(g);
+        int rk = (int)g.uni(0, 7);
+        r[i] = rk == 0 ? 0 : rk == 1 ? 1 : rk == 2 ? 20 : rk == 3 ? 35 : rk == 4 ? (1LL << 31) - 1 : rk == 5 ? std::min(A[i], 1LL << 31) : g.uni(1, A[i]);
+      }
+      dems.assign(nsrc, 0); caps.assign(nsnk, 0); costs.assign(nsnk, std::vector<ll>(nsrc));
+      for (int i = 0; i < nsnk; ++i) dems[i] = A[i] + r[i];
+      int rot = (int)g.uni(0, nsnk - 1);   // which sink is the main one: not always the one with the same index
+      for (int i = 0; i < nsnk; ++i) for (int j = 0; j < nsnk; ++j) costs[j][i] = 50 + g.uni(0, 50);
+      for (int i = 0; i < nsnk; ++i) {
+        int m = (i + rot) % nsnk, s = (i + rot + 1) % nsnk; costs[m][i] = 0; costs[s][i] = 1;
+        caps[m] += A[i]; caps[s] += r[i];
+      }
+      for (int i = nsnk; i < nsrc; ++i) {   // extra sources with random costs; their demand is added to random sinks
+        dems[i] = g.coin(50) ? huge_share(g) : g.uni(1LL << 30, 1LL << 33);
+        for (int j = 0; j < nsnk; ++j) costs[j][i] = g.uni(0, 60);
+        ll left = dems[i]; while (left > 0) { ll a = g.coin(50) ? left : g.uni(1, left); caps[g.uni(0, nsnk - 1)] += a; left -= a; }
+      }
+      if (g.coin(25)) caps[g.uni(0, nsnk - 1)] += g.uni(1, 1LL << 32);   // some slack
+    } else {
+      // a small problem (quantities in units, max demand / min capacity <= 250 as in gen_rand) scaled by a granule G: the solver
+      // moves min-allocation units per iteration along its paths, so quantities that differ by a few units next to 2^31-sized ones
+      // make it (and the model) run for minutes; with a common granule the iteration count is that of the small problem
+      nsnk = (int)g.uni(1, 10); nsrc = (int)g.uni(1, 24);
+      ll maxu = g.coin(30) ? 3 : g.coin(50) ? 16 : g.coin(50) ? 100 : 500;
+      static const ll grans[] = {1LL << 31, 1LL << 32, (1LL << 31) - 1, (1LL << 31) + 1, (1LL << 32) + 10, (1LL << 33) + 5, 3LL << 30,
+                                 1LL << 30, (1LL << 32) - 1, 1LL << 29};
+      ll G = g.coin(60) ? grans[g.uni(0, 9)] : g.coin(50) ? (1LL << g.uni(24, 33)) : g.uni(1LL << 24, 1LL << 33);
+      while (G * maxu > (1LL << 41)) G >>= 1;
+      dems.resize(nsrc); caps.resize(nsnk); ll td = 0, maxd = 0;
+      for (auto &d : dems) { d = g.uni(1, maxu); td += d; maxd = std::max(maxd, d); }
+      ll loc = std::max<ll>(1, maxd / 250);
+      ll maxc = std::max<ll>(loc, (ll)((double)td / nsnk * (g.coin(50) ? 1.0 : 2.0)));
+      for (auto &c : caps) c = g.uni(loc, maxc);
+      costs.assign(nsnk, std::vector<ll>(nsrc));
+      ll maxk = g.coin(40) ? 4 : 1000; int cm = (int)g.uni(0, 2);
+      if (cm == 0) { for (auto &r : costs) for (auto &c : r) c = g.uni(0, maxk); }
+      else if (cm == 1) { for (int j = 0; j < nsnk; ++j) { ll base = g.uni(0, maxk); for (int i = 0; i < nsrc; ++i) costs[j][i] = base + g.uni(0, 2); } }
+      else {
+        std::vector<ll> sx(nsnk), sy(nsnk); for (int j = 0; j < nsnk; ++j) { sx[j] = g.uni(0, 10); sy[j] = g.uni(0, 10); }
+        for (int i = 0; i < nsrc; ++i) { ll x = g.uni(0, 10), y = g.uni(0, 10); for (int j = 0; j < nsnk; ++j) costs[j][i] = (maxk / 20 + 1) * (std::llabs(x - sx[j]) + std::llabs(y - sy[j])); }
+      }
+      int fm = (int)g.uni(0, 9);
+      if (fm <= 2) fit_caps(g, caps, dems, 0);
+      else if (fm <= 4) fit_caps(g, caps, dems, 1);
+      else if (fm <= 6) fit_caps(g, caps, dems, 2, loc), fit_caps(g, caps, dems, 0);
+      else incr = 1;
+      if (incr) G = std::max<ll>(1LL << 24, G / nsnk) * nsnk;   // increaseCapacity() adds missing / nsnk to every sink: keep that a multiple of G / nsnk
+      for (auto &d : dems) d *= G;
+      for (auto &c : caps) c *= G;
+    }
+    print_pb(g, incr, caps, dems, costs);
+  }
+}
+
 static void gen_flt(SplitMix &g, ll count) {
   for (ll it = 0; it < count; ++it) {
     int nsnk = (int)g.uni(1, it % 3 == 0 ? 16 : 6), nsrc = (int)g.uni(1, it % 5 == 0 ? 120 : 25);
@@ -167,10 +243,11 @@ int main(int argc, char **argv) {
       }
       return 0;
     }
-    SplitMix g(strtoull(argv[3], nullptr, 10) * 7919ULL + (what == "rand" ? 1 : what == "big" ? 2 : 3)); ll count = atoll(argv[4]);
+    SplitMix g(strtoull(argv[3], nullptr, 10) * 7919ULL + (what == "rand" ? 1 : what == "big" ? 2 : what == "huge" ? 4 : 3)); ll count = atoll(argv[4]);
     if (what == "rand") gen_rand(g, count, false);
     else if (what == "big") gen_rand(g, count, true);
     else if (what == "flt") gen_flt(g, count);
+    else if (what == "huge") gen_huge(g, count);
     return 0;
   }
   vh_install();
